@@ -158,6 +158,49 @@ def run_case(case, ctx):
         f_user = (lambda z: f0(np.atleast_1d(z))) if not hasattr(xin, '__len__') else f
         f = lambda z: f0(z)        # the library hands a length-1 vector to f
     step = D.build_step(nd, case['step'])
+    x_then = np.array(xin, copy=True) if isinstance(xin, np.ndarray) else None
+
+    def aborted_call_first(cls_name, **kw_):
+        # history: an earlier call on the caller's own array was abandoned because the user function raised after a few
+        # evaluations; the array must be what it was, and the call that is judged must not see anything of the aborted one
+        left = [1 + case['seed'] % 5]
+
+        def failing(z):
+            left[0] -= 1
+            if left[0] < 0:
+                raise RuntimeError('user function failed')
+            return f(z)
+        ctx.count('earlier_call_aborted_by_an_exception')
+        try:
+            with np.errstate(all='ignore'):
+                getattr(nd, cls_name)(failing, **kw_)(xin)
+        except Exception:
+            pass
+
+    def caller_array_changed(where):
+        if seen_changed:
+            ctx.reject('callers_array_modified', observed=seen_changed[0], expected=x_then, detail=dict(seen='by the user function during ' + where),
+                       method=method, n=n)
+            return True
+        if x_then is not None and np.asarray(xin).tobytes() != x_then.tobytes():
+            ctx.reject('callers_array_modified', observed=np.asarray(xin), expected=x_then, detail=dict(after=where), method=method, n=n)
+            return True
+        if x_then is not None:
+            ctx.count('callers_array_unchanged_asserted')
+        return False
+    seen_changed = []
+    if x_then is not None:
+        # ... nor may the user function ever find the caller's array changed while a call is in progress (f may refer to it)
+        f_plain = f
+
+        def f(z):
+            if not seen_changed and xin.tobytes() != x_then.tobytes():
+                seen_changed.append(np.array(xin, copy=True))
+            return f_plain(z)
+    if x_then is not None and case['seed'] % 4 == 1:
+        aborted_call_first('Hessian', method=method, step=D.build_step(nd, case['step']))
+        if caller_array_changed('an aborted Hessian call'):
+            return
     D._OBS.clear()
     try:
         with np.errstate(all='ignore'):
@@ -165,6 +208,8 @@ def run_case(case, ctx):
     except Exception as exc:
         ctx.reject('hessian_raised', observed='%s: %s' % (type(exc).__name__, str(exc)[:150]),
                    method=method, variant=variant, n=n, family=family)
+        return
+    if caller_array_changed('a Hessian call'):
         return
     lamH = max(D._OBS.get('rule_abs', 1.0), 1.0) * max(D._OBS.get('rich_abs', 1.0), 1.0)
     H = np.asarray(H)
@@ -228,6 +273,10 @@ def run_case(case, ctx):
         return
     # ---- Hessdiag
     if method != 'central2':
+        if x_then is not None and case['seed'] % 4 in (1, 2):
+            aborted_call_first('Hessdiag', method=method, order=case['hd_order'], step=D.build_step(nd, case['step']))
+            if caller_array_changed('an aborted Hessdiag call'):
+                return
         D._OBS.clear()
         try:
             with np.errstate(all='ignore'):
@@ -249,6 +298,8 @@ def run_case(case, ctx):
         except Exception as exc:
             ctx.reject('hessdiag_raised', observed='%s: %s' % (type(exc).__name__, str(exc)[:150]),
                        method=method, variant=variant, n=n, order=case['hd_order'])
+            return
+        if caller_array_changed('a Hessdiag call'):
             return
         lamD = max(D._OBS.get('rule_abs', 1.0), 1.0) * max(D._OBS.get('rich_abs', 1.0), 1.0)
         hd = np.asarray(hd)
